@@ -117,7 +117,7 @@ pub fn drive_c06(a: &Args, out: &mut Out) {
     // late features: a long plain head (no CR, no blank other than ' ', ASCII only) followed by a
     // short tail with everything interesting - and the mirror image (scanners that sniff the
     // head of the input, or switch strategy by size, must not depend on it)
-    let heads: &[usize] = if thorough { &[5000, 8000, 8192, 10000, 16384, 20000, 65536, 70000] } else { &[8000, 8192, 10000, 16384, 20000] };
+    let heads: &[usize] = if thorough { &[4096, 5000, 8000, 8192, 10000, 16384, 20000, 32768] } else { &[8000, 8192, 10000, 16384, 20000] };
     for &l in heads {
         let mut head = String::new();
         for i in 0..l {
